@@ -33,6 +33,10 @@ def check(ctx):
     from . import c01
     c01.no_touch_after_handover(ctx, P, views, iters)
     renege_leaves_class_change_cache(ctx, P, views, iters)
+    renege_destination(ctx, P, views, iters)
+    # a customer whose patience ends at the very instant a server becomes available (slot, shift change, end of a service) is served, not lost: renege ranks last
+    from . import c12
+    c12.event_precedence(ctx, P, views, before={"renege": ("slotted_service", "shift_change", "end_service")})
     ctx.assume("baulking functions return a probability in [0, 1]; distributions return non-negative patience")
 
 
@@ -192,6 +196,56 @@ def renege_leaves_class_change_cache(ctx, P, views, iters):
                               loc(fn), witness(st))
         if not n:
             ctx.unrecognised("RCC: no path through %s.renege" % view.name)
+
+
+def renege_destination(ctx, P, views, iters):
+    """the reneging customer is handed to the node its router names for jockeying -- the very object `next_node_for_jockeying(<that customer>)` returned,
+    on every path, whatever the state of that node (a reneger is not subject to the capacity test)"""
+    from .. import typestate
+    ob = ctx.ob("RDEST", "renege: the customer chosen by decide_between_simultaneous_individuals is accepted, on every path, by the node next_node_for_jockeying returned for it")
+    done = set()
+    n = 0
+    for view in views:
+        r = view.resolve("renege")
+        if r is None:
+            ctx.unrecognised("RDEST: %s.renege not found" % view.name)
+            continue
+        cls, fn = r
+        w = Walker(P, view, keep=lambda e: (e.kind == "assign" and e.d.get("local")) or e.kind in ("enter", "leave", "return") or
+                   (e.kind == "call" and e.d["meth"] in ("accept", "next_node_for_jockeying", "decide_between_simultaneous_individuals")),
+                   inline=rules.new_helper, loop_iters=iters)
+        for st in w.paths_of(cls, fn):
+            if st.status == "raise":
+                continue
+            evs = list(st.events)
+            accs = [(i, e) for i, e in enumerate(evs) if e.kind == "call" and e.d["meth"] == "accept"]
+            n += 1
+            ob.ok("%s.renege:%d" % (view.name, len(accs)))
+            reason = None
+            if len(accs) != 1:
+                reason, msg, where = "reneger-not-handed-over-once", "renege must hand the customer to exactly one node (found %d accept calls)" % len(accs), loc(fn)
+            else:
+                i, e = accs[0]
+                recv = e.node.func.value if isinstance(e.node.func, ast.Attribute) else None
+                src = recv
+                if isinstance(recv, ast.Name):
+                    o = typestate.origin(evs, i, recv.id + e.frame.tag, e.frame)
+                    src = o[0] if o else None
+                ok_src = isinstance(src, ast.Call) and call_name(src) == "next_node_for_jockeying"
+                if not ok_src:
+                    reason, msg, where = "reneger-not-sent-to-jockeying-destination", \
+                        "the node that accepts the reneging customer is `%s`, not the node next_node_for_jockeying returned for it" % (unparse(src) if src is not None else e.d["recv"]), e.where
+                else:
+                    # ... asked for the customer that reneges
+                    arg = src.args[0] if src.args else None
+                    who = e.node.args[0] if e.node.args else None
+                    same = arg is not None and who is not None and unparse(arg) == unparse(who)
+                    if not same:
+                        reason, msg, where = "jockeying-destination-of-another-customer", "the jockeying destination is asked for `%s` but `%s` is handed over" % (unparse(arg) if arg is not None else "?", unparse(who) if who is not None else "?"), e.where
+            if reason and (cls.name, reason) not in done:
+                done.add((cls.name, reason))
+                ctx.violation(ob, "R8.destination", "%s.renege" % cls.name, "next_node.accept(...)", reason, msg, where, witness(st))
+    ctx.floor("renege paths", n, 1)
 
 
 def jockey_default(ctx, P):
